@@ -277,5 +277,113 @@ theorem getProof_complete (P : Node → Prop) (hP : Hered P) (hdec : DecOK H P)
         rw [hw]
         exact complete_step H P hdec (ch i) hci r' v q' hq2
 
+/-- what the verifier has established when it stands at node `n` with remaining key `k` and
+    remaining proof `π`, and finally answers `ok v` -/
+def Acc (n : PNode) (k : List Nibble) (π : List Bytes) (v : Bytes) : Prop :=
+  match walk n k with
+  | .value v' => v' = v
+  | .jump h k' => proveHash H π h k' = .ok v
+  | _ => False
+
+/-- `q` is the honest proof below `n` for key `k` (what GetProof appends after `n`'s own element) -/
+def GP (n : Node) (k : List Nibble) (q : List Bytes) : Prop :=
+  ∀ r items, getProof H r n k items = some (items ++ hdr H r n ++ q)
+
+theorem prefix_step (P : Node → Prop) (hdec : DecOK H P) (c : Node) (hc : P c)
+    (r' : List Nibble) (π : List Bytes) (v : Bytes)
+    (ih : ∀ π, Acc H (toP H c) r' π v → Collision H ∨ ∃ q, GP H c r' q ∧ q <+: π)
+    (h : Acc H (ref H c) r' π v) :
+    Collision H ∨ ∃ q', GP H c r' q' ∧ (hdr H false c ++ q') <+: π := by
+  unfold Acc at h
+  rw [walk_ref] at h
+  rw [hdr_false]
+  by_cases hbig : (serialize H c).length > 32
+  · simp only [hbig, if_true] at h ⊢
+    cases π with
+    | nil => simp [proveHash] at h
+    | cons b rest =>
+      by_cases hb : b = serialize H c
+      · subst hb
+        rw [proveHash_cons H P hdec c hc] at h
+        split at h
+        · cases h
+        · have hacc : Acc H (toP H c) r' rest v := by
+            unfold Acc
+            split at h
+            · rename_i v' hw; rw [hw]; cases h; rfl
+            · cases h
+            · cases h
+            · rename_i h' k' hw; rw [hw]; exact h
+          rcases ih rest hacc with hc' | ⟨q, hq, hpre⟩
+          · exact Or.inl hc'
+          · refine Or.inr ⟨q, hq, ?_⟩
+            simpa [List.cons_prefix_cons] using hpre
+      · rw [proveHash] at h
+        by_cases hh : H b = H (serialize H c)
+        · exact Or.inl ⟨b, _, hb, hh⟩
+        · simp [hh] at h
+  · simp only [hbig, if_false, List.nil_append] at h ⊢
+    exact ih π h
+
+theorem prefix_spec (P : Node → Prop) (hP : Hered P) (hdec : DecOK H P)
+    (n : Node) (hn : P n) (k : List Nibble) (v : Bytes) (π : List Bytes)
+    (h : Acc H (toP H n) k π v) : Collision H ∨ ∃ q, GP H n k q ∧ q <+: π := by
+  induction n generalizing k π with
+  | empty => exact absurd hn hP.notEmpty
+  | leaf ks x =>
+    unfold Acc at h
+    simp only [toP, walk] at h
+    by_cases e : ks = k
+    · subst e
+      refine Or.inr ⟨[], fun r items => ?_, List.nil_prefix⟩
+      simp only [getProof, hdr, if_true, List.append_nil]
+      split <;> simp
+    · simp [e] at h
+  | ext ks nx ih =>
+    have hnx := hP.ext ks nx hn
+    by_cases hp : ks <+: k
+    · obtain ⟨r', rfl⟩ := hp
+      have hw : walk (toP H (.ext ks nx)) (ks ++ r') = walk (ref H nx) r' := by
+        rw [toP_ext]; simp [walk, cpl_append']
+      have h' : Acc H (ref H nx) r' π v := by unfold Acc at h ⊢; rw [← hw]; exact h
+      rcases prefix_step H P hdec nx hnx r' π v (fun π' => ih hnx r' π') h' with hc | ⟨q', hq, hpre⟩
+      · exact Or.inl hc
+      · refine Or.inr ⟨hdr H false nx ++ q', fun r items => ?_, hpre⟩
+        simp only [getProof, cpl_append', Nat.lt_irrefl, if_false, List.drop_left']
+        rw [hq]
+        simp only [hdr]
+        split <;> simp
+    · have hc : cpl ks k < ks.length := by
+        rw [cpl_comm]; exact (cpl_lt_iff_not_prefix k ks).2 hp
+      unfold Acc at h
+      rw [toP_ext] at h
+      simp [walk, hc] at h
+  | branch ch w ih =>
+    cases k with
+    | nil =>
+      unfold Acc at h
+      rw [toP_branch] at h
+      refine Or.inr ⟨[], fun r items => ?_, List.nil_prefix⟩
+      simp only [getProof, hdr, List.append_nil]
+      split <;> simp
+    | cons i r' =>
+      by_cases he : (ch i).isEmpty = true
+      · unfold Acc at h
+        rw [toP_branch] at h
+        simp [walk, ref_isNil, he] at h
+      · have he' : (ch i).isEmpty = false := by simpa using he
+        have hci := hP.branch ch w i hn he'
+        have hw : walk (toP H (.branch ch w)) (i :: r') = walk (ref H (ch i)) r' := by
+          rw [toP_branch]; simp only [walk, ref_isNil, he', Bool.false_eq_true, if_false]
+        have h' : Acc H (ref H (ch i)) r' π v := by unfold Acc at h ⊢; rw [← hw]; exact h
+        rcases prefix_step H P hdec (ch i) hci r' π v (fun π' => ih i hci r' π') h'
+          with hc | ⟨q', hq, hpre⟩
+        · exact Or.inl hc
+        · refine Or.inr ⟨hdr H false (ch i) ++ q', fun r items => ?_, hpre⟩
+          simp only [getProof, he', Bool.false_eq_true, if_false]
+          rw [hq]
+          simp only [hdr]
+          split <;> simp
+
 end
 end Goloop.C18
